@@ -6,6 +6,7 @@ area = "queue"
 driver = "drv_queue"
 cxx = False
 fixed_lines = 1
+link_extra = ["-Wl,--wrap=writev"]
 rule = ("scripts = 'q new max off fill' followed by queue ops; stream 1 enumerates every state with max<=5 "
         "(all off, all fill lengths) x every op x every operand <= max+1; stream 2 = random histories over "
         "max in {7,64,1500,3000}; non-trivial = a history during which the stored content wrapped around the "
@@ -24,6 +25,9 @@ def corpus(chk):
 
 def _fill(n, base=0x61):
     return gen.hexs([(base + i) & 0xff for i in range(n)])
+
+
+SIZE_MAX = 2 ** 64 - 1
 
 
 def _ops_for(mx, ln):
@@ -51,6 +55,19 @@ def _ops_for(mx, ln):
     ops.append("q set 1 zero:2")
     ops.append("q string")
     ops.append("q save")
+    for k in R:
+        ops.append("q save %d" % k)
+    for p in R:
+        for n in R:
+            ops.append("q mget %d %d" % (p, n))
+            if n <= 2 or p <= 1:
+                ops.append("q mget %d %d novec" % (p, n))
+    # size_t overflow guard of mpt_queue_prepare: used size + request (+ pointer size) beyond SIZE_MAX is refused
+    # before anything is touched (requests just below the guard would really allocate and are not driven)
+    free = mx - ln
+    for n in (SIZE_MAX, SIZE_MAX - 7, SIZE_MAX - 8 - mx + free + 1):
+        if 0 < n <= SIZE_MAX and n > free:
+            ops.append("q prepare %d" % n)
     for n in R:
         for avail in (0, 1, 2, mx, mx + 2):
             ops.append("q load %d %s" % (n, _fill(avail, 0x51)))
@@ -67,7 +84,12 @@ def scripts(tier, seed, scale=1):
             for ln in range(0, mx + 1):
                 new = "q new %d %d %s" % (mx, off, _fill(ln))
                 for op in _ops_for(mx, ln):
-                    out.append(("ex:%d/%d/%d:%s" % (mx, off, ln, op), [new, op, "q get 0 %d" % ln]))
+                    tail = ["q get 0 %d" % ln, "q save"]
+                    w = op.split()
+                    if w[1] == "prepare" and int(w[2]) <= 2 * mx + 2:
+                        # the space reported must really be there: a push of that size has to be accepted
+                        tail = ["q push " + _fill(int(w[2]), 0x70)] + tail
+                    out.append(("ex:%d/%d/%d:%s" % (mx, off, ln, op), [new, op] + tail))
     # random histories
     nrand = (300 if tier == "quick" else 3000) * scale
     r = gen.rng(id, tier, seed, "random")
@@ -79,7 +101,7 @@ def scripts(tier, seed, scale=1):
         lines = ["q new %d %d %s" % (mx, off, gen.hexs([r.randrange(256) for _ in range(ln)]))]
         for _ in range(r.choice([6, 12, 30])):
             free = mx - cur
-            kind = r.choice(["push", "push", "unshift", "pop", "shift", "crop", "get", "set", "align", "align0", "resize", "prepare", "find", "string", "load", "save"])
+            kind = r.choice(["push", "push", "unshift", "pop", "shift", "crop", "get", "set", "align", "align0", "resize", "prepare", "find", "string", "load", "save", "mget", "mget", "savek"])
             if kind in ("push", "unshift"):
                 n = r.choice([0, 1, free, free + 1, r.randrange(free + 2), min(free, 1100)])
                 lines.append("q %s %s" % (kind, gen.hexs([r.randrange(256) for _ in range(n)])))
@@ -108,6 +130,12 @@ def scripts(tier, seed, scale=1):
                                                 gen.hexs([r.randrange(256) for _ in range(r.choice([0, 1, free, free + 3, r.randrange(free + 4)]))])))
             elif kind == "save":
                 lines.append("q save")
+            elif kind == "savek":
+                lines.append("q save %d" % r.choice([0, 1, max(0, cur - 1), cur, r.randrange(cur + 2)]))
+            elif kind == "mget":
+                p = r.choice([0, 1, cur, r.randrange(cur + 2)])
+                n = r.choice([0, 1, max(0, cur - p), max(0, cur - p) + 1, r.randrange(max(1, cur - p + 2))])
+                lines.append("q mget %d %d%s" % (p, n, r.choice(["", "", " novec"])))
             else:
                 lines.append("q string")
             lines.append("q get 0 %d" % r.choice([cur, cur, max(0, cur - 1)]))
@@ -147,9 +175,11 @@ class _XX:
                     for part in (1, 2, 3):
                         for cnt in (1, 2, 3, 5):
                             ops.append("xq write %d %s" % (part, _fill(part * cnt, 0x30)))
+                            ops.append("xq write %d zero:%d" % (part, part * cnt))
                             ops.append("xq read %d %d" % (cnt, part))
+                            ops.append("xq read %d %d nodst" % (cnt, part))
                     for op in sorted(set(ops)):
-                        out.append(("xx:%d/%d/%d:%s" % (mx, off, ln, op), [new, op, "xq peek 0"]))
+                        out.append(("xx:%d/%d/%d:%s" % (mx, off, ln, op), [new, op, "xq peek 0", "xq read 9 1"]))
         r = gen.rng(id, tier, seed, "xx-random")
         for k in range((150 if tier == "quick" else 1500) * scale):
             mx = r.choice([0, 8, 16, 64])
@@ -157,7 +187,7 @@ class _XX:
             ln = r.randrange(mx + 1)
             lines = ["xq new %d %d %s" % (mx, off, gen.hexs([r.randrange(256) for _ in range(ln)]))]
             for _ in range(r.choice([5, 10, 20])):
-                kind = r.choice(["push", "unshift", "pop", "shift", "write", "read", "peek", "elements"])
+                kind = r.choice(["push", "unshift", "pop", "shift", "write", "read", "peek", "elements", "writez", "readn"])
                 if kind in ("push", "unshift"):
                     lines.append("xq %s %s" % (kind, gen.hexs([r.randrange(256) for _ in range(r.choice([0, 1, 2, 7, 8, 9, 30]))])))
                 elif kind in ("pop", "shift"):
@@ -167,6 +197,11 @@ class _XX:
                     lines.append("xq write %d %s" % (part, gen.hexs([r.randrange(256) for _ in range(part * r.choice([1, 2, 3, 7]))])))
                 elif kind == "read":
                     lines.append("xq read %d %d" % (r.choice([1, 2, 3]), r.choice([1, 2, 4, 5])))
+                elif kind == "writez":
+                    part = r.choice([1, 2, 4, 5])
+                    lines.append("xq write %d zero:%d" % (part, part * r.choice([1, 2, 3, 7])))
+                elif kind == "readn":
+                    lines.append("xq read %d %d nodst" % (r.choice([1, 2, 3]), r.choice([1, 2, 4, 5])))
                 elif kind == "elements":
                     lines.append("xq elements")
                 else:
